@@ -247,17 +247,20 @@ func (fs *MockFS) ReadDir(name string) ([]DirEntry, error) {
 	if _, ok := fs.dirs[name]; !ok {
 		return nil, &os.PathError{Op: "readdir", Path: name, Err: os.ErrNotExist}
 	}
-	var entries []DirEntry
-	for path, fileInfo := range fs.fileInfos {
-		dir := filepath.Dir(path)
-		if dir == name || (name == "/" && path != "" && path[0] == '/') {
-			entries = append(entries, &mockDirEntry{info: fileInfo})
+	// The entries of the directory itself (not of the directories below it,
+	// also when it is the root), in the order of their paths: like
+	// os.ReadDir, sorted by filename
+	var paths []string
+	for path := range fs.fileInfos {
+		if path != name && filepath.Dir(path) == name {
+			paths = append(paths, path)
 		}
 	}
-	// Like os.ReadDir, return the entries sorted by filename
-	sort.Slice(entries, func(i, j int) bool {
-		return entries[i].Name() < entries[j].Name()
-	})
+	sort.Strings(paths)
+	entries := make([]DirEntry, 0, len(paths))
+	for _, path := range paths {
+		entries = append(entries, &mockDirEntry{info: fs.fileInfos[path]})
+	}
 	return entries, nil
 }
 
